@@ -120,7 +120,7 @@ def templates(tier):
     T = []
     names = ["compact", "remove-labels", "no-inline-functions", "no_append_version", "tail_call_optimization", "bogus", "no-bogus"]
     # 1. directive line with symbolic leading blanks and junk before 'pytrapic:'
-    for a, b in itertools.islice(itertools.permutations(names, 2), 0, 40 if tier == "thorough" else 8):
+    for a, b in itertools.islice(itertools.permutations(names, 2), 0, 42 if tier == "thorough" else 8):
         T.append((f"lead:{a},{b}", ["x = 1\n", (2, WS), "#", (1, [0x20, ord("#"), ord("x")]), "pytrapic:", (1, WS), a, ",", (1, WS), b, "\ny = 2\n"]))
     # 2. '-' / '_' spelled symbolically inside names, 'no' prefix separator symbolic
     T.append(("dash:remove?labels", ["# pytrapic: remove", (1, [ord("-"), ord("_"), ord(" ")]), "labels\n"]))
